@@ -356,7 +356,7 @@ def byte_states(fn, text, signed):
                     if 'case' in lab and fn.const_value(lab['case']) is not None:
                         labels.setdefault(s_, []).append(fn.const_value(lab['case']) & 0xff)
                 r = ('switch', labels)
-        elif len(blk['succs']) == 2 and _null_test(fn, blk['cond']) is not None and _null_test(fn, blk['cond'])[0] in (valid & derived):
+        elif len(blk['succs']) == 2 and _null_test(fn, blk['cond']) is not None and _null_test(fn, blk['cond'])[0] in (valid & derived) and _null_test(fn, blk['cond'])[0] in dcalls:
             dd, nonnull = _null_test(fn, blk['cond'])
             hr = helper_returns(dcalls[dd]['q'], signed)
             N = Z = ISet()
